@@ -455,7 +455,8 @@ func c12All(c *Check, P string) {
 			continue
 		}
 		nh++
-		okArg := ctr != nil && (cl.Common().Args[0] == ssa.Value(ctr.Phi) && ctr.Init == 1 || cl.Common().Args[0] == ssa.Value(ctr.Next) && ctr.Init == 0)
+		isV := func(v, want ssa.Value) bool { return AllOrigins(v, func(o ssa.Value) bool { return o == want }) }
+		okArg := ctr != nil && (isV(cl.Common().Args[0], ctr.Phi) && ctr.Init == 1 || isV(cl.Common().Args[0], ctr.Next) && ctr.Init == 0)
 		c.Report(okArg, P+".O5", "HOOK-COUNTER", I, cl.Pos(), "OnRetryHook call", "the hook receives the retry counter, which runs 1,2,…")
 		_, fail := NilEdges(I, ResultOfAny(inLoop, 1))
 		c.Report(InLoop(cl) && GuardedBy(I, cl, fail) && !ReachWithout(cl, cl, instrsOf(inLoop)...), P+".O5", "HOOK-PER-FAILED-RETRY", I, cl.Pos(), "OnRetryHook call", "the hook is called once per failed retry")
